@@ -179,6 +179,10 @@ class CompoundQuery(qcore.Query):
             seenqs.add(s)
             subqs.append(s)
 
+        # An intersection with a clause that matches nothing matches nothing
+        if isand and any(q is qcore.NullQuery for q in subqs):
+            return qcore.NullQuery
+
         # Remove NullQuerys
         subqs = [q for q in subqs if q is not qcore.NullQuery]
 
